@@ -4,8 +4,10 @@ Claimed sub-claims: (1) every arithmetic / comparison / bitwise / shift instruct
 arithmetic (EvmWord.tla, implementation -> model); (2) call-frame semantics: success/failure class, storage writes, logs,
 value movement and pushed success flags of nested CALL / CALLCODE / DELEGATECALL / STATICCALL / CREATE frames, "a failing
 or reverting frame leaves no state change", "a static call can never modify state" (EvmFrames.tla, model -> implementation).
-NOT decided: remaining-gas equality with the reference schedule, memory/copy/returndata instructions, precompiles,
-per-fork opcode availability beyond the transcribed set."""
+(3) memory, the return data buffer (EIP-211) and the precompiles 0x01-0x04 as call targets: copies never alias, the buffer after
+every CALL* / CREATE / CREATE2, RETURNDATACOPY bounds (EvmMemory.tla, model -> implementation).
+NOT decided: remaining-gas equality with the reference schedule, memory expansion cost / unaligned and huge offsets, the other
+precompiles, per-fork opcode availability beyond the transcribed set."""
 import evmcommon as ec
 from verifkit import Infra
 
@@ -43,9 +45,31 @@ def run(ctx):
     ec.replay_programs(ctx, behs, "mix", stats)
     del behs
 
+    # ---- 3. memory, return data buffer, precompiles (stage 2) -----------------------------------------------------------
+    ec.selftest_memory(ctx)                                  # planted spec bug must violate BufferLaw
+    mstats = ec.new_mem_stats()
+    behs, r = ec.export_mem_programs(ctx, timeout=600 if q else 3000)
+    exhaustive = exhaustive and r.ok
+    demo3 = ec.mem_binding_demo(ctx, behs)
+    ec.replay_mem_programs(ctx, behs, "mem", mstats)
+    del behs
+    if not q:
+        # random programs over the union alphabet (TLC's simulator evaluates every successor of every visited program,
+        # so each of the 30 walks contributes a few thousand programs)
+        behs, r = ec.export_mem_programs(ctx, mix=True, simulate="num=30", depth=8, timeout=3000)
+        ec.replay_mem_programs(ctx, behs, "memmix", mstats)
+        del behs
+
     join_selfcheck()
 
-    ctx.cov["binding_demo"] = demo1 + "; " + (demo2 or "")
+    ctx.cov["binding_demo"] = demo1 + "; " + (demo2 or "") + "; " + demo3
+    ctx.cov["memory_programs_replayed_on_real_evm"] = mstats["replayed"]
+    ctx.cov["memory_programs_conforming"] = mstats["conform"]
+    ctx.cov["memory_programs_reading_the_buffer_after_a_call"] = mstats["nontrivial"]
+    ctx.cov["memory_programs_write_after_identity_then_returndatacopy"] = mstats["write_after_identity_then_rdcopy"]
+    ctx.cov["memory_programs_with_out_of_bounds_returndatacopy_halt"] = mstats["rdoob"]
+    ctx.cov["memory_programs_calling_a_precompile"] = mstats["precompile"]
+    ctx.cov["memory_programs_with_create_or_create2"] = mstats["creates"]
     ctx.cov["word_vectors"] = summary.get("vectors", 0)
     ctx.cov["word_vectors_per_instruction"] = summary.get("perOp", {})
     ctx.cov["programs_replayed_on_real_evm"] = stats["replayed"]
@@ -53,17 +77,21 @@ def run(ctx):
     ctx.cov["programs_matching_only_immediate_selfdestruct_variant"] = stats["known_sd"]
     ctx.cov["programs_with_failed_frame"] = stats["with_failed_frame"]
     ctx.cov["programs_with_static_frame"] = stats["with_static_frame"]
-    ctx.cov["traces_validated_against_impl"] += stats["replayed"]
-    ctx.cov["evaluations"] = summary.get("vectors", 0) + stats["replayed"]
-    ctx.cov["distinct_nontrivial"] = summary.get("distinct_multilimb", 0) + stats["nested"]
+    ctx.cov["traces_validated_against_impl"] += stats["replayed"] + mstats["replayed"]
+    ctx.cov["evaluations"] = summary.get("vectors", 0) + stats["replayed"] + mstats["replayed"]
+    ctx.cov["distinct_nontrivial"] = summary.get("distinct_multilimb", 0) + stats["nested"] + mstats["nontrivial"]
     ctx.cov["rule"] = ("evaluations = instruction vectors executed by the real interpreter + programs executed by the real EVM. "
                        "Vectors: fixed boundary cross products per instruction plus seeded random operands; distinct (op,a,b,c) with "
                        "an operand >= 2^15 (more than one limb) count as non-trivial. Programs: every program of the BFS profiles "
                        "(each reached exactly once) plus de-duplicated random programs of the 'mix' profile; a program counts as "
-                       "non-trivial when the real EVM entered at least one nested call frame")
+                       "non-trivial when the real EVM entered at least one nested call frame. Memory programs (stage 2): every program "
+                       "of MC_EvmMemory's BFS profiles alias/create/window (thorough: plus de-duplicated random 'mix' programs); "
+                       "non-trivial when the entry contract made a call/creation and then read the return data buffer "
+                       "(RETURNDATASIZE or RETURNDATACOPY)")
     ctx.cov["exhaustive"] = bool(exhaustive)
-    ctx.cov["exhaustive_note"] = ("program profiles depth3/calls2/create/destruct are enumerated completely by TLC (BFS) and all "
-                                  "replayed; profile mix and the word vectors are sampled")
+    ctx.cov["exhaustive_note"] = ("program profiles fixed/depth3/calls2/create/destruct (EvmFrames) and alias/create/window "
+                                  "(EvmMemory) are enumerated completely by TLC (BFS) and all replayed; the mix profiles and the "
+                                  "word vectors are sampled")
     ctx.assumptions += [
         "keccak / address derivation are oracles: created addresses are read from the run, not predicted",
         "thor extension, not reported: every CREATE emits a prototype $Master event and sets the creator as master; modelled as "
@@ -71,5 +99,9 @@ def run(ctx):
         "gas is compared by class only (ok / revert / invalid / static / out-of-gas, leftover <= provided, a failing non-REVERT "
         "frame uses all its gas, a REVERT frame keeps some); starved calls are exercised with value 0 only (the 2300 stipend is gas schedule)",
         "call targets are acyclic (A -> B -> C), so nesting is <= 3 without modelling the 1024 depth limit or gas exhaustion by recursion",
-        "the harness reads pushed success flags from the real stack with a vm.Logger (passive tracer, vm.Config.Tracer)",
+        "the harness reads pushed success flags from the real stack and each frame's final memory with a vm.Logger (passive "
+        "tracer, vm.Config.Tracer)",
+        "stage 2: memory is word addressed (aligned offsets, whole-word lengths, 3 cells); sha256 / ripemd160 are oracles "
+        "(hashlib) applied to the input the specification says the precompile received; ecrecover inputs are never valid "
+        "signatures (empty output); nobody owns wei, so a creation with an endowment fails before its constructor runs",
     ]
